@@ -602,9 +602,9 @@ def run_real(plan, beh, rng, which):
             try:
                 fut = process_graphql_query(schema, query, runtime=rt, root=rootv)
                 try:
-                    res = fut.result(timeout=20)
+                    res = fut.result(timeout=90)
                 except TimeoutError:
-                    return [("%s/timeout/%s" % (tag, "crash" if crashes else "ok"), "result not ready after 20 s")]
+                    return [("%s/timeout/%s" % (tag, "crash" if crashes else "ok"), "result not ready after 90 s")]
             finally:
                 rt._inner.shutdown(wait=False)
         else:
@@ -613,11 +613,11 @@ def run_real(plan, beh, rng, which):
                 rt = AsyncIORuntime(loop=loop)
 
                 async def main():
-                    return await asyncio.wait_for(process_graphql_query(schema, query, runtime=rt, root=rootv), 20)
+                    return await asyncio.wait_for(process_graphql_query(schema, query, runtime=rt, root=rootv), 90)
                 try:
                     res = loop.run_until_complete(main())
                 except asyncio.TimeoutError:
-                    return [("%s/timeout/%s" % (tag, "crash" if crashes else "ok"), "result not ready after 20 s")]
+                    return [("%s/timeout/%s" % (tag, "crash" if crashes else "ok"), "result not ready after 90 s")]
             finally:
                 loop.run_until_complete(loop.shutdown_default_executor())
                 loop.close()
